@@ -26,6 +26,8 @@ func init() {
 		rt + "Bytes":     inBytes,
 		rt + "BytesUpTo": inBytesUpTo,
 		rt + "Digest":    inDigest,
+		rt + "Digests":   func(ex *Exec, c *callCtx) (Value, bool) { return inDigests(ex, c, false) },
+		rt + "DigestsUpTo": func(ex *Exec, c *callCtx) (Value, bool) { return inDigests(ex, c, true) },
 		rt + "Assume":    inAssume,
 		rt + "Assert":    inAssert,
 		rt + "Reach":     inReach,
@@ -245,6 +247,41 @@ func inDigest(ex *Exec, c *callCtx) (Value, bool) {
 	return ex.nondetBytes(c.s, name, 32, "digest"), true
 }
 
+func inDigests(ex *Exec, c *callCtx, upTo bool) (Value, bool) {
+	name := ex.strArg(c.args[0])
+	nT := c.args[1].(*Term)
+	if !nT.IsConst() {
+		unsupported("Digests: count must be concrete")
+	}
+	n := int(nT.U64())
+	arr := make(Agg, n)
+	for i := 0; i < n; i++ {
+		arr[i] = ex.nondetBytes(c.s, name, 32, "digest")
+	}
+	obj := c.s.alloc(arr)
+	ln := ex.tt.BV(uint64(n), 64)
+	if upTo {
+		lkey, lsmt := ex.nextKey(c.s, name+".len")
+		if ex.Concrete != nil {
+			v := ex.Concrete[lkey]
+			if v == nil {
+				v = big.NewInt(0)
+			}
+			ln = ex.tt.BVBig(v, 64)
+		} else {
+			ln = ex.tt.Var(lsmt, 64)
+		}
+		c.s.inputs = append(c.s.inputs, Input{Key: lkey, Kind: "int", Terms: []*Term{ln}})
+		le := ex.tt.Cmp(OpULe, ln, ex.tt.BV(uint64(n), 64))
+		if le.IsFalse() {
+			c.s.end(Dead, "DigestsUpTo length out of range")
+			return nil, false
+		}
+		c.s.addPC(le)
+	}
+	return Slice{Base: Ptr{Obj: obj}, Off: ex.tt.BV(0, 64), Len: ln, Cap: ln}, true
+}
+
 func inAssume(ex *Exec, c *callCtx) (Value, bool) {
 	t := c.args[0].(*Term)
 	if t.IsTrue() {
@@ -435,9 +472,14 @@ func (ex *Exec) addHashApp(s *State, h HashApp) {
 		}
 	}
 	if HashAxiomMode != "inv" {
+		// same-length applications: pairwise injectivity; different lengths are separated
+		// by the (linear) length tag
 		for _, o := range s.hashes {
-			s.addPC(ex.pairAxiom(o, h))
+			if len(o.In) == len(h.In) {
+				s.addPC(ex.pairAxiom(o, h))
+			}
 		}
+		s.addPC(ex.tt.Eq(ex.tt.UF("sha256len", 16, h.App), ex.tt.BV(uint64(len(h.In)), 16)))
 	}
 	// no hash cycles: every whole digest embedded in the input ranks below the output
 	if len(h.In) >= 32 {
